@@ -6,7 +6,7 @@ n = strengthened = 0
 for d in sorted(os.listdir('/verif/seeded')):
     m = json.load(open('/verif/seeded/%s/meta.json' % d))
     n += 1
-    if 'after strengthening' in m['caught_by']:
+    if 'after strengthening' in m['caught_by'].lower():
         strengthened += 1
     rows.append("| %s | %s | %s |" % (d, m['needs_to_manifest'].replace('|', '/')[:150], m['caught_by'].replace('|', '/')))
 table = "| seed | needs to manifest | caught by |\n|---|---|---|\n" + "\n".join(rows)
